@@ -122,6 +122,8 @@ structure AllSound (n : Nat) : Prop where
     (∀ (i : Nat) a ta, args[i]? = some a → tys[i]? = some ta → Typed Φ (lookupG Gs Gg) a ta) →
     (∀ (i : Nat) ta, tys[i]? = some ta → sig.paramAt i ta = true) → StOk S Gs Gg st →
     GoodX Gg (PR sig.ret) S Gs (evalCall ops ext prog n name args st)
+  test : ∀ (args : List (Expr F)) st Gs S, (∀ a ∈ args, Typed Φ (lookupG Gs Gg) a .any) → StOk S Gs Gg st →
+    GoodX Gg (fun _ (_ : Val F) => True) S Gs (evalCall ops ext prog n (lit "test") args st)
   print : ∀ (args : List (Expr F)) st Gs S, (∀ a ∈ args, ∃ t, Typed Φ (lookupG Gs Gg) a t) → StOk S Gs Gg st →
     GoodX Gg (fun _ (_ : Val F) => True) S Gs (evalCall ops ext prog n (lit "print") args st)
   execS : ∀ (ρ : Option Ty) (s : Stmt F) st Gs Gs' S, STyped Φ Gg ρ Gs s Gs' → StOk S Gs Gg st →
@@ -627,6 +629,25 @@ theorem all_sound (hx : ExtOk ext) (hg : GgOk Gg) (hp : ProgOk Φ Gg prog) (n : 
         | ok v s2 =>
           obtain ⟨S2, g2, hk2, hgl2, hl2, hv2⟩ := hgood
           exact ⟨S2, g1.trans g2, ⟨by rw [hl2]; exact hok1.locals.mono g2, hgl2, hk2⟩, hv2⟩
+    · -- test
+      intro args st Gs S hargs hok
+      unfold evalCall
+      have h1 := ih.evalL args st Gs S .any hargs hok
+      cases hq : evalList ops ext prog n args st with
+      | err o s1 => rw [hq] at h1; exact h1
+      | ok vs s1 =>
+        rw [hq] at h1
+        obtain ⟨S1, g1, hok1, hvs⟩ := h1
+        obtain ⟨r, hcb, hr⟩ := bi_test ops ext vs s1 hvs
+        have ht : String.ofList (lit "test") = "test" := by decide
+        simp only [hcb, ht, if_true]
+        rcases hr with rfl | rfl | rfl
+        · exact ⟨S1, g1, hok1.same Gg rfl rfl rfl, trivial⟩
+        · simp only
+          split
+          · exact rfl
+          · exact ⟨S1, g1, hok1.same Gg rfl rfl rfl, trivial⟩
+        · exact trivial
     · -- print
       intro args st Gs S hargs hok
       unfold evalCall
@@ -906,6 +927,15 @@ theorem all_sound (hx : ExtOk ext) (hg : GgOk Gg) (hp : ProgOk Φ Gg prog) (n : 
             rw [hq] at h1
             obtain ⟨S1, g1, hok1, _⟩ := h1
             exact ⟨S1, Gs, g1, hok1, rfl, rfl, fun _ => rfl, trivial⟩
+        | callTest _ args hargs =>
+          simp only
+          have h1 := ih.test args st Gs S hargs hok
+          cases hq : evalCall ops ext prog n (lit "test") args st with
+          | err o s1 => rw [hq] at h1; exact h1
+          | ok v s1 =>
+            rw [hq] at h1
+            obtain ⟨S1, g1, hok1, _⟩ := h1
+            exact ⟨S1, Gs, g1, hok1, rfl, rfl, fun _ => rfl, trivial⟩
         | callFn _ name args sig hphi hlen hargs =>
           simp only
           have h1 := ih.call name args sig st Gs S hphi hlen hargs hok
@@ -1121,19 +1151,98 @@ theorem call_sound (hx : ExtOk ext) (hg : GgOk Gg) (hp : ProgOk Φ Gg prog) (fue
   | ok v s => rw [hq] at h; exact h
 
 /-- **accepted programs never go wrong** (for the typed fragment of the model): running the top-level
-statements of a well-typed program never ends with an internal error or a Go panic, for any number
+statements of a well-typed program never ends with an internal error (other than the documented failed
+test under fail-fast) or a Go panic, for any number
 of steps, any oracle and any state that is well-typed for the program's globals -/
 theorem program_never_goes_wrong (hx : ExtOk ext) (hg : GgOk Gg) (hp : ProgOk Φ Gg prog) (fuel : Nat) (st st' : St F) (S : Store)
     (hty : BTyped Φ Gg none [] prog.stmts) (hok : StOk S [] Gg st) (w : String) :
-    execStmts ops ext prog fuel prog.stmts st ≠ .err (.internal w) st' ∧
+    (w ≠ "ErrTest" → execStmts ops ext prog fuel prog.stmts st ≠ .err (.internal w) st') ∧
     execStmts ops ext prog fuel prog.stmts st ≠ .err (.goPanic w) st' := by
   have h := stmt_sound ops ext prog Φ Gg hx hg hp fuel none prog.stmts st [] S hty hok
-  constructor <;> intro hq <;> rw [hq] at h <;> exact h
+  constructor
+  · intro hw hq; rw [hq] at h; exact hw h
+  · intro hq; rw [hq] at h; exact h
 
 theorem expr_never_goes_wrong (hx : ExtOk ext) (hg : GgOk Gg) (hp : ProgOk Φ Gg prog) (fuel : Nat) (e : Expr F) (st st' : St F) (Gs : List SEnv)
     (S : Store) (t : Ty) (hty : Typed Φ (lookupG Gs Gg) e t) (hok : StOk S Gs Gg st) (w : String) :
-    evalE ops ext prog fuel e st ≠ .err (.internal w) st' ∧ evalE ops ext prog fuel e st ≠ .err (.goPanic w) st' := by
+    (w ≠ "ErrTest" → evalE ops ext prog fuel e st ≠ .err (.internal w) st') ∧ evalE ops ext prog fuel e st ≠ .err (.goPanic w) st' := by
   have h := expr_sound ops ext prog Φ Gg hx hg hp fuel e st Gs S t hty hok
-  constructor <;> intro hq <;> rw [hq] at h <;> exact h
+  constructor
+  · intro hw hq; rw [hq] at h; exact hw h
+  · intro hq; rw [hq] at h; exact h
+
+/-! ### event handlers -/
+
+theorem payload_typed {S : Store} {t : Ty} {v : Val F} (h : payloadOk t v = true) : VT S v t := by
+  cases t <;> cases v <;> simp [payloadOk] at h
+  · exact .num _
+  · exact .str _
+  · exact .bool _
+
+theorem bindPayload_ok {S : Store} : ∀ (ps : List (Str × Ty)) (vs : List (Val F)) (st st2 : St F) (g : SEnv) (sc : Scope F),
+    st.locals = [sc] → ScOk S g sc → bindPayload ps vs st = some st2 →
+    ∃ sc', st2.locals = [sc'] ∧ ScOk S (paramScope (ps.map Prod.fst) (ps.map Prod.snd) g) sc' ∧
+      st2.global = st.global ∧ st2.heap = st.heap := by
+  intro ps
+  induction ps with
+  | nil => intro vs st st2 g sc hl hsc h; simp [bindPayload] at h; subst h; exact ⟨sc, hl, by simpa [paramScope] using hsc, rfl, rfl⟩
+  | cons p ps ih =>
+    obtain ⟨n, t⟩ := p
+    intro vs st st2 g sc hl hsc h
+    cases vs with
+    | nil => simp [bindPayload] at h
+    | cons v vs =>
+      simp only [bindPayload] at h
+      split at h
+      · rename_i hp
+        have hv : VT S v t := payload_typed hp
+        simp only [List.map_cons, paramScope]
+        by_cases hu : n = underscore
+        · have : setVar st n v = st := by simp [setVar, hu]
+          rw [this] at h; simp only [hu, if_true]
+          exact ih vs st st2 g sc hl hsc h
+        · simp only [hu, if_false]
+          have hl2 : (setVar st n v).locals = [scopeSet sc n v] := by simp [setVar, hu, hl]
+          obtain ⟨sc', h1, h2, h3, h4⟩ := ih vs (setVar st n v) st2 (senvSet g n t) (scopeSet sc n v) hl2 (hsc.set n v t hv) h
+          refine ⟨sc', h1, h2, ?_, ?_⟩
+          · rw [h3]; simp [setVar, hu, hl]
+          · rw [h4]; simp [setVar, hu, hl]
+      · cases h
+
+/-- the program's event handlers are well-typed: the body in the scope of the parameters -/
+def HandlersOk (prog : Program F) : Prop :=
+  ∀ h ∈ prog.handlers, BTyped Φ Gg none [paramScope (h.params.map Prod.fst) (h.params.map Prod.snd) []] h.body
+
+/-- **type soundness, event handlers**: delivering any event payload to a well-typed handler in a
+well-typed state ends in a well-typed state with the caller's scopes restored, or in a documented
+outcome (a payload of the wrong type is the documented conversion panic) — never an internal error,
+and a Go panic only if the platform breaks its contract (no such handler, payload too short) -/
+theorem handler_sound (hx : ExtOk ext) (hg : GgOk Gg) (hp : ProgOk Φ Gg prog) (hh : HandlersOk Φ Gg prog)
+    (fuel : Nat) (name : Str) (payload : List (Val F)) (st : St F) (Gs : List SEnv) (S : Store)
+    (hok : StOk S Gs Gg st) (h : Handler F) (hfind : prog.handlers.find? (fun h => h.name == name) = some h)
+    (hlen : h.params.length ≤ payload.length) :
+    match (handleEvent ops ext prog fuel name payload st).1 with
+    | .err o => Doc o
+    | _ => ∃ S', Grows S S' ∧ StOk S' Gs Gg (handleEvent ops ext prog fuel name payload st).2 := by
+  have hmem : h ∈ prog.handlers := List.mem_of_find?_eq_some hfind
+  have hbody := hh h hmem
+  unfold handleEvent
+  simp only [hfind]
+  have hnl : ¬ payload.length < h.params.length := by omega
+  simp only [hnl, if_false]
+  cases hb : bindPayload h.params payload { st with locals := [[]] } with
+  | none => exact trivial
+  | some st2 =>
+    obtain ⟨sc', hl', hsc', hg', hh'⟩ := bindPayload_ok h.params payload { st with locals := [[]] } st2 [] [] rfl .nil hb
+    have hok2 : StOk S [paramScope (h.params.map Prod.fst) (h.params.map Prod.snd) []] Gg st2 :=
+      ⟨by rw [hl']; exact .cons hsc' .nil, by rw [hg']; exact hok.global, by rw [hh']; exact hok.heap⟩
+    have h2 := (all_sound ops ext prog Φ Gg hx hg hp fuel).execN none h.body st2 _ S hbody hok2
+    simp only
+    cases hq : execBlockNode ops ext prog fuel h.body st2 with
+    | err o s4 => rw [hq] at h2; exact h2
+    | ok c s4 =>
+      rw [hq] at h2
+      obtain ⟨S4, Gx, g4, hok4, _, _, _⟩ := h2
+      exact ⟨S4, g4, ⟨hok.locals.mono g4, hok4.global, hok4.heap⟩⟩
 
 end EvyV.TS
